@@ -46,7 +46,12 @@ def run(ctx):
         r09_7(ctx, a)
         r09_8(ctx, a)
         r09_9(ctx, a)
+        r09_14(ctx, a)
         r09_10(ctx, a)
+        from . import balance
+        nb = balance.run_adapter(ctx, a, want=("balance", "index", "bound"))
+        ctx.floor("R09.12", nb, 11)
+        balance.run_update(ctx, a)
         sites = [(blk, t) for blk, t in a.poll.built.calls() if wakers.is_poll_call(t)] + [(blk, t) for blk, t, c in wakers.local_poll_helper_calls(F, a.poll)]
         wakers.check_poll_fn(ctx, "R14.1", a.poll, sites)
     r09_6(ctx, ads)
@@ -544,3 +549,34 @@ def r09_11(ctx):
                 ctx.undecided("R09.11", f, "partial-call-bounded:%s" % m, where, "position `%s` not recognised" % fmt(e, 4))
     if not n:
         ctx.holds("R09.11", None, "partial-calls=0", None, "no take / split_at / split_off / slice call in the Head, Tail, Skip modules (positive example: seeded change C12a-w3)")
+
+
+def r09_14(ctx, a):
+    """nothing from the source reaches the consumer untranslated: an item the poll function returns is produced by the
+    adapter's container operations (push_into_* / pop_from_* / extend_*, i.e. by the translator or the update function), never
+    the polled source item itself. A "nothing is hidden, forward as is" shortcut bypasses the per-diff translation - for a
+    batch only its end state is then known to fit the limit - and the room-before-entry discipline with it."""
+    F = ctx.facts
+    f = a.poll
+    b = inl(F, f, a.translator, a.update) or f.built
+    n = 0
+    for loc, kind, payload in blocks_assigning_ret(b):
+        if loc[0] not in b.reachable():
+            continue
+        e = b.expr_of_rv(payload, 14, (), loc) if kind == "assign" else b.expr_of_call(payload, 14, (), loc)
+        somes = find_all(e, lambda y: y[0] == "agg" and y[1] == "adt" and y[2] == "std::option::Option" and y[3] == "Some")
+        for sm in somes:
+            n += 1
+            x = sm[5][0]
+            via_ops = contains(x, lambda y: y[0] == "call" and isinstance(y[1], str) and re.search(r"::(push_into_\w+_buf|pop_from_\w+_buf|extend_\w+_buf|from_item)$", y[1])) \
+                or contains(x, lambda y: y[0] == "call" and F.fns.get(UT + "::" + str(y[2] or y[1])) in (a.update, a.translator))
+            from_src = contains(x, lambda y: y[0] == "call" and isinstance(y[1], str) and re.search(wakers.POLL_PAT, y[1]))
+            where = b.line_at(loc)
+            if via_ops:
+                ctx.holds("R09.14", f, "items-come-from-the-translator", where, "the returned item is produced by the container operations")
+            elif from_src and not contains(x, lambda y: y[0] in ("unknown", "local", "cycle", "undef")):
+                ctx.violated("R09.14", f, "items-come-from-the-translator", where,
+                             "`%s` returns the item polled from the source stream as it is (`%s`), without passing it through the translator: the consumer receives source diffs that were not limited / re-indexed one by one" % (f.path, fmt(x, 4)))
+            else:
+                ctx.undecided("R09.14", f, "items-come-from-the-translator", where, "provenance of the returned item not recognised: %s" % fmt(x, 4))
+    return n
